@@ -65,6 +65,7 @@ Ltac alg_ring := intros; vm_compute; lits; lanes_k ltac:(ring).
 Ltac side_nz := repeat split; let Hc := fresh "Hc" in (intro Hc; match goal with H : _ <> k0 |- _ => apply H; rewrite <- Hc; ring | H : _ <> k0 |- _ => apply H; exact Hc end).
 (* uninterpreted functions (sqrt) of arguments that agree as polynomials *)
 Ltac congr_ring := first [ring | (f_equal; congr_ring)].
+Ltac congr_ring_p := first [ring | (progress f_equal; congr_ring_p)].
 Ltac alg_congr := intros; vm_compute; lits; lanes_k ltac:(congr_ring).
 Ltac alg_field := intros; vm_compute; lits; lanes_k ltac:(field; side_nz).
 '''
@@ -78,6 +79,19 @@ class AlgLemma(core.Lemma):
         return fa + ''.join('%s -> ' % h for h in self.hyps) + '%s = %s' % (self.lhs, self.rhs)
     def text(self):
         return 'Lemma %s : %s.\nProof. Timeout %d (%s). Qed.' % (self.name, self.statement(), core.LEMMA_TIMEOUT[0], self.tactic)
+
+def cond_tac(fin='congr_ring_p'):
+    """proof script for a lemma whose hypotheses fix the outcome of the comparisons / predicates the code branches on: each stuck test of
+    the goal is identified (up to `ring` on its operands) with a hypothesis and rewritten, then evaluation continues"""
+    return ("intros; vm_compute; lits; repeat (first ["
+            "match goal with H : k_cmp ?c ?xs ?ys = ?b |- context[k_cmp ?c ?x ?y] => "
+            "let E1 := fresh in let E2 := fresh in assert (E2 : y = ys) by (first [reflexivity | congr_ring_p]); assert (E1 : x = xs) by (first [reflexivity | congr_ring_p]); "
+            "try (progress rewrite E1); try (progress rewrite E2); rewrite H; clear E1 E2 end | "
+            "match goal with H : k_pred ?c ?xs = ?b |- context[k_pred ?c ?x] => "
+            "let E1 := fresh in assert (E1 : x = xs) by (first [reflexivity | congr_ring_p]); try (progress rewrite E1); rewrite H; clear E1 end]; vm_compute; lits); lanes_k ltac:(%s)" % fin)
+BOILER_MOD = BOILER.replace('Import Base Spec Sem Alg.', 'Import Base Spec Sem Alg Modular.')
+def cmp_hyp(c, a, b, val): return 'k_cmp %s %s %s = %s' % (c, a, b, 'true' if val else 'false')
+def pred_hyp(p, a, val): return 'k_pred %s %s = %s' % (p, a, 'true' if val else 'false')
 
 FOOTER = 'End S.\n'
 
@@ -109,3 +123,155 @@ def kxargs(args):
     """argument terms: every float leaf `VF32 name` becomes `VF32 (KX name)` (variables range over the field)"""
     return [_re.sub(r'VF(32|64) ([A-Za-z_][A-Za-z_0-9]*)', r'VF\1 (KX \2)', a) for a in args]
 def kxl(lanes): return ['(KX %s)' % l for l in lanes]
+
+# ------------------------------------------------------------------ numeric search for a failed algebraic lemma
+# The reference formula (right-hand side, hypotheses) is evaluated in double precision on small dyadic inputs and compared with what the
+# crate built from the working tree returns for the same call; a lane that differs by more than the tolerance is a failing input.
+import math as _math, struct as _struct, random as _random
+
+class _P:
+    """parser for the formula fragment used in the reference formulas: + - * / unary -, parentheses, %K, k0 k1, KX e, lit32 n, lit64 n,
+    k_un OP e, k_bin OP e e"""
+    def __init__(self, s): self.t = _re.findall(r'[A-Za-z_][A-Za-z_0-9\']*|\d+|[()+\-*/]|%K', s); self.i = 0
+    def peek(self): return self.t[self.i] if self.i < len(self.t) else None
+    def next(self): x = self.peek(); self.i += 1; return x
+    def expr(self):
+        v = self.term()
+        while self.peek() in ('+', '-'):
+            o = self.next(); w = self.term(); v = ('+', v, w) if o == '+' else ('-', v, w)
+        return v
+    def term(self):
+        v = self.factor()
+        while self.peek() in ('*', '/'):
+            o = self.next(); w = self.factor(); v = (o, v, w)
+        return v
+    def factor(self):
+        if self.peek() == '-': self.next(); return ('neg', self.factor())
+        return self.atom()
+    def atom(self):
+        x = self.next()
+        if x == '(':
+            if self.peek() in ('k_un', 'k_bin', 'lit32', 'lit64', 'KX', 'kadd', 'kmul', 'ksub', 'kdiv', 'kopp', 'kinv'): v = self.app()
+            else: v = self.expr()
+            if self.next() != ')': raise ValueError('paren')
+            if self.peek() == '%K': self.next()
+            return v
+        if x in ('k_un', 'k_bin', 'lit32', 'lit64', 'KX'): self.i -= 1; return self.app()
+        if x == 'k0': return ('c', 0.0)
+        if x == 'k1': return ('c', 1.0)
+        if x is None: raise ValueError('eof')
+        if x.isdigit(): return ('c', float(x))
+        return ('v', x)
+    def app(self):
+        h = self.next()
+        if h == 'KX': return self.atom()
+        if h in ('lit32', 'lit64'): n = int(self.next()); return ('c', _struct.unpack('<f', _struct.pack('<I', n))[0] if h == 'lit32' else _struct.unpack('<d', _struct.pack('<Q', n))[0])
+        if h == 'k_un': o = self.next(); return ('un', o, self.atom())
+        if h == 'k_bin': o = self.next(); a = self.atom(); return ('bin', o, a, self.atom())
+        if h in ('kadd', 'kmul', 'ksub', 'kdiv'): a = self.atom(); return ({'kadd': '+', 'kmul': '*', 'ksub': '-', 'kdiv': '/'}[h], a, self.atom())
+        if h == 'kopp': return ('neg', self.atom())
+        if h == 'kinv': return ('/', ('c', 1.0), self.atom())
+        raise ValueError('app ' + str(h))
+
+def _ev(e, env):
+    k = e[0]
+    if k == 'c': return e[1]
+    if k == 'v': return env[e[1]]
+    if k == 'neg': return -_ev(e[1], env)
+    if k in '+-*/':
+        a = _ev(e[1], env); b = _ev(e[2], env)
+        return a + b if k == '+' else a - b if k == '-' else a * b if k == '*' else (a / b if b != 0 else _math.copysign(_math.inf, a) if a != 0 else _math.nan)
+    if k == 'un':
+        x = _ev(e[2], env); o = e[1]
+        f = {'FSqrt': lambda x: _math.sqrt(x) if x >= 0 else _math.nan, 'FSin': _math.sin, 'FCos': _math.cos, 'FTan': _math.tan, 'FAbs': abs, 'FSignum': lambda x: _math.copysign(1.0, x),
+             'FAcos': lambda x: _math.acos(max(-1.0, min(1.0, x))), 'FAsin': lambda x: _math.asin(max(-1.0, min(1.0, x))), 'FExp': _math.exp, 'FFloor': _math.floor, 'FCeil': _math.ceil, 'FTrunc': _math.trunc}.get(o)
+        if f is None: raise ValueError('un ' + o)
+        return f(x)
+    if k == 'bin':
+        a = _ev(e[2], env); b = _ev(e[3], env); o = e[1]
+        if o == 'FAtan2': return _math.atan2(a, b)
+        if o == 'FCopysign': return _math.copysign(a, b)
+        if o in ('FMinStd', 'FMinSse'): return min(a, b)
+        if o in ('FMaxStd', 'FMaxSse'): return max(a, b)
+        raise ValueError('bin ' + o)
+    raise ValueError(k)
+
+_CMP = {'FLt': lambda a, b: a < b, 'FLe': lambda a, b: a <= b, 'FGt': lambda a, b: a > b, 'FGe': lambda a, b: a >= b, 'FEq': lambda a, b: a == b, 'FNe': lambda a, b: a != b}
+def _hyp_ok(h, env):
+    """hypotheses of the forms `E <> k0` and `k_cmp C E1 E2 = true|false`"""
+    m = _re.fullmatch(r'\s*k_cmp (\w+) (.*) = (true|false)\s*', h)
+    if m:
+        p = _P(m.group(2)); a = p.atom(); b = p.atom(); return _CMP[m.group(1)](_ev(a, env), _ev(b, env)) == (m.group(3) == 'true')
+    m = _re.fullmatch(r'\s*k_pred (\w+) (.*) = (true|false)\s*', h)
+    if m:
+        x = _ev(_P(m.group(2)).atom(), env); r = {'FIsFinite': _math.isfinite(x), 'FIsNan': _math.isnan(x), 'FSignBit': _math.copysign(1.0, x) < 0}[m.group(1)]
+        return r == (m.group(3) == 'true')
+    m = _re.fullmatch(r'\s*(.*) <> k0\s*', h)
+    if m: return abs(_ev(_P(m.group(1)).expr(), env)) > 1e-3
+    raise ValueError('hyp ' + h)
+
+def _lanes_of_rhs(rhs):
+    """the lane expressions of `Ok (...)`: every maximal `(KX ...)` group in order"""
+    out = []; i = 0
+    while True:
+        j = rhs.find('(KX ', i)
+        if j < 0: break
+        d = 0; k = j
+        while True:
+            if rhs[k] == '(': d += 1
+            elif rhs[k] == ')':
+                d -= 1
+                if d == 0: break
+            k += 1
+        out.append(rhs[j + 4:k]); i = k + 1
+    return out
+
+def numeric_search(lem, idx, seed, n=160):
+    m = lem.meta; cfg = m.get('cfg'); errs = []
+    if not cfg or not m.get('did') or m.get('fixed'): return None, ['no public entry point for the numeric search']
+    f = next((x for x in idx.fns(cfg) if x['i'] == m['did']), None)
+    if f is None or f['by_ref'] or f['generic']: return None, ['no public entry point for the numeric search']
+    try: lanes = [_P(x).expr() for x in _lanes_of_rhs(lem.rhs)]
+    except ValueError as e: return None, ['reference formula not evaluable: %r' % e]
+    if not lanes: return None, ['no lanes in the reference formula']
+    structs = idx.structs(cfg); enums = idx.enums(cfg)
+    tys = ([f['self']] if f['has_self'] else []) + [p[1] for p in f['params']]
+    ret = f['self'] if (f['self_mut'] and f['ret'] == 'unit') else f['ret']
+    rr = _random.Random(seed); cands = []
+    pool = [0.0, 1.0, -1.0, 2.0, -2.0, 3.0, 0.5, -0.5, 1.5, -3.0, 4.0, 0.25, 5.0, -1.5, 0.75, -0.25]
+    for _ in range(n * 6):
+        if len(cands) >= n: break
+        env = {nm: rr.choice(pool) for nm, k in lem.vars}
+        try:
+            if not all(_hyp_ok(h, env) for h in lem.hyps): continue
+            exp = [_ev(l, env) for l in lanes]
+        except (ValueError, KeyError, ZeroDivisionError, OverflowError) as e: return None, ['reference formula not evaluable: %r' % e]
+        if any(_math.isnan(x) or _math.isinf(x) for x in exp): continue
+        cands.append((env, exp))
+    if not cands: return None, ['no candidate input satisfies the hypotheses']
+    lines = []
+    for env, _ in cands:
+        vals = iter([(core.f32b(env[nm]) if k == 'f32' else core.f64b(env[nm])) for nm, k in lem.vars])
+        try: words = [w for t in tys for w in core.words_from_values(structs, enums, t, vals)]
+        except SymErr as e: return None, ['argument words: %r' % e]
+        lines.append('%d %s' % (m['did'], ' '.join('%x' % (w & core.M64) for w in words)))
+    out = core.run_driver(core.build_driver(cfg), lines)
+    vs = []
+    try: kinds = [l[1] for l in tree_leaves(sym(structs, ret, 'q', vs))]
+    except SymErr: return None, ['result type']
+    for (env, exp), line, call in zip(cands, out, lines):
+        c = core.canon_driver(structs, enums, ret, line)
+        if isinstance(c, str):
+            if c == 'PANIC': continue
+            continue
+        if len(c) != len(exp) or len(kinds) != len(c): continue
+        for j, (w, e, kd) in enumerate(zip(c, exp, kinds)):
+            got = _math.nan if w == 'nan' else (_struct.unpack('<f', _struct.pack('<I', w & 0xffffffff))[0] if kd == 'f32' else _struct.unpack('<d', _struct.pack('<Q', w))[0] if kd == 'f64' else None)
+            if got is None: continue
+            tol = (2e-3 if kd == 'f32' else 1e-6) * max(1.0, abs(e), max(abs(v) for v in env.values()) ** 2)
+            if _math.isnan(got) or abs(got - e) > tol:
+                return {'input_words': call.split()[1:], 'function': m['key'], 'cfg': cfg, 'did': m['did'], 'assignment': {k: v for k, v in env.items()}, 'lane': j, 'crate_value': got, 'reference_value': e,
+                        'crate_output': line, 'confirmed_on_crate': True, 'how_found': 'reference formula of the lemma evaluated in double precision on %d small dyadic inputs satisfying the hypotheses, against the crate built from the working tree' % len(cands)}, errs
+    return None, errs + ['%d dyadic inputs: the crate agrees with the reference formula within tolerance' % len(cands)]
+
+AlgLemma.search = lambda self, idx, seed: numeric_search(self, idx, seed)
